@@ -14,14 +14,12 @@ Chk(cond, tid, v) == IF cond THEN TRUE ELSE Say(tid, v)
 
 JudgePair(o) ==
     LET A == o.a  B == o.b
-    IN \* (inside the enum-metaclass deviation class the verdict depends on how the metaclass method's
-       \*  unsolved type variable is matched; the model does not predict it there)
-       /\ Chk(o.real = ImplCA(A, B, FALSE) \/ Dev_EnumMetaclassProtocol(A, B), o.tid, "drift:can_assign")
-       /\ Chk(o.realx = ImplCA(A, B, TRUE) \/ Dev_EnumMetaclassProtocol(A, B), o.tid, "drift:can_assign_exclude_any")
+    IN /\ Chk(o.real = ImplCA(A, B, FALSE), o.tid, "drift:can_assign")
+       /\ Chk(o.realx = ImplCA(A, B, TRUE), o.tid, "drift:can_assign_exclude_any")
        /\ Chk(o.realx => o.real, o.tid, "viol:ExcludeAnyMonotone")
        /\ Chk((Static(A) /\ Static(B) /\ o.real /\ ~Lenient(A, B)) => \A x \in AObjects : Member(x, B) => Member(x, A),
-              o.tid, IF Dev_EnumMetaclassProtocol(A, B) THEN "dev:enum-instance-accepted-as-iterable"
-                     \* (excused only where the model of the deviating mechanism reproduces the observed verdict)
+              \* (a deviation class excuses only where the model of the deviating mechanism reproduces the observed verdict)
+              o.tid, IF Dev_EnumMetaclassProtocol(A, B) /\ o.real = ImplCA(A, B, FALSE) THEN "dev:enum-instance-accepted-as-iterable"
                      ELSE IF Dev_TypedDictAsPlainDict(A, B) /\ o.real = ImplCA(A, B, FALSE) THEN "dev:typeddict-as-plain-dict"
                      ELSE "viol:Sound")
        /\ Chk(ImplEq(A, B) /\ A = B => o.real, o.tid, "viol:Reflexive")
